@@ -1,4 +1,5 @@
 import SynKitProofs.Props.C07
+import SynKitProofs.Props.C06
 #print axioms SynKit.GME.cache_transparent
 #print axioms SynKit.GME.get_mappings_valid
 #print axioms SynKit.GME.get_mappings_nonempty_iff_contained_partial
@@ -25,3 +26,11 @@ import SynKitProofs.Props.C07
 #print axioms SynKit.Match.isoDecide_relabel_pattern
 #print axioms SynKit.Match.isoDecide_symm
 #print axioms SynKit.Match.isoDecide_refl
+-- the pre-filter clause of C07 ("turning any cheap pre-filter on or off never changes a result set")
+-- for `_quick_pre_filter` of the subgraph search rests on the C06 theorems about the model's pre-filter
+#print axioms SynKit.SubgraphSearch.prefilter_spec
+#print axioms SynKit.SubgraphSearch.prefilter_zero_sound
+#print axioms SynKit.SubgraphSearch.prefilter_zero_lossless
+#print axioms SynKit.SubgraphSearch.prefilter_estimate_upper
+#print axioms SynKit.SubgraphSearch.prefilter_fires_iff
+#print axioms SynKit.SubgraphSearch.prefilter_sound_or_large
